@@ -63,7 +63,8 @@ class Listeners:
 
     @classmethod
     def from_listeners(cls, listeners: Iterable["Listener"]) -> "Listeners":
-        listeners = tuple(listeners)
+        # the same object given more than once is a single provider
+        listeners = tuple({listener.resolver_id: listener for listener in listeners}.values())
         all_attrs = set().union(*(listener.all_attrs for listener in listeners))
         return cls(listeners, all_attrs)
 
